@@ -57,6 +57,10 @@ func c14(r *Run) {
 	tight := ch.Chance(1, 5, "cfg.tightlimiter") // queries wait for send budget (and may meet Close or a cancel while waiting)
 	r.Swarm["starting"], r.Swarm["maintainer"], r.Swarm["closeMid"], r.Swarm["resend"] = startMode, withMaint, closeMid, delay.String()
 	pop := NewPop(r)
+	if ch.Chance(1, 4, "pop.alias") {
+		pop.Alias = true // the same address listed under two node ids in one reply
+		r.Probe("alias-in-neighbour-lists")
+	}
 	var starting []dht.Addr
 	cfg := &dht.ServerConfig{NoSecurity: true, QueryResendDelay: func() time.Duration { return delay }}
 	if tight {
